@@ -185,8 +185,14 @@ def one_call(bi, bj, mode):
         return dict(inter=bool(inter), w12=L(w12), w21=L(w21), pairs=None)
     cs = hc.find_contact_surface(bi, bj, use_aabb_trees=(mode == "tree"))
     w12, w21 = fo.accumulate_wrenches(cs, bi, bj)
-    return dict(inter=bool(cs.intersection), w12=L(w12), w21=L(w21),
-                pairs=sorted([int(a), int(b)] for a, b in zip(cs.intersecting_tetrahedra1, cs.intersecting_tetrahedra2)))
+    out = dict(inter=bool(cs.intersection), w12=L(w12), w21=L(w21),
+               pairs=sorted([int(a), int(b)] for a, b in zip(cs.intersecting_tetrahedra1, cs.intersecting_tetrahedra2)))
+    n = len(cs.intersecting_tetrahedra1)
+    if 0 < n <= 300:
+        # everything the wrench model needs, with the centres of mass as they are NOW (non-zero for a re-expressed body)
+        out["surface"] = dict(forces=L(cs.contact_forces), coms=L(cs.contact_coms), com1=L(bi.com), com2=L(bj.com),
+                              frame2world=L(cs.frame2world), force_abs_sum=float(np.sum(np.linalg.norm(cs.contact_forces, axis=1))))
+    return out
 
 
 def history(specs, steps):
